@@ -55,6 +55,16 @@ CLAIMED = {
             'Trusts harness/aio.py (hand driver, ChoiceLoop), stub connections, asyncio itself; bounds N<=2 (thorough 3), M<=2, H<=2, one '
             'cancellation per run; schedule leaves are concrete runs enumerated by the solver.',
             'DESIGN.md 3/C12', 'pre-state, cancellation point and scheduler decisions symbolic'),
+    'C13': ('other',
+            'Bounded symbolic verification on the real Pipeline/ItemQueue/Worker/Producer: ItemQueue step invariants from arbitrary small '
+            'pre-states; the whole pipeline on a choice-driven asyncio loop with instrumented tasks and source: ALL schedules (every scheduler '
+            'decision a symbolic integer) for the smallest configurations and all schedules within a preemption bound of 2 for larger ones, '
+            'with a stop request / concurrency change (pause, resume, raise, lower) delivered at a symbolic step and task/source failures at '
+            'symbolic positions. Monitors: per-item task order at-most/exactly once, only supplied items, process() returns or raises '
+            '(hang = nothing runnable), no further work after stop.',
+            'Trusts harness/aio.ChoiceLoop and asyncio; bounds: <=3 items (thorough 4), <=2 tasks, concurrency <=3, latency <=1 (2) extra yields; '
+            'signal delivery itself and PipelineSeries timing outside the claim; schedule leaves are concrete runs enumerated by the solver.',
+            'DESIGN.md 3/C13', 'scheduler decisions, event step and failure position symbolic'),
 }
 
 NOT_APPLICABLE = {
@@ -64,7 +74,7 @@ NOT_APPLICABLE = {
 }
 
 PENDING = {k: 'claimed in DESIGN.md 3 but its check is not built yet at this commit' for k in
-           'C04 C05 C07 C08 C09 C10 C13 C15 C16 C17 C19 C20'.split()}
+           'C04 C05 C07 C08 C09 C10 C15 C16 C17 C19 C20'.split()}
 
 
 def main():
